@@ -103,7 +103,7 @@ def gen_gp_case(rng, tier):
             "sched": sched,
             "n_suggest": 10 if tier == "quick" else 16, "num_init_random": rng.choice([2, 3]),
             "num_init_candidates": rng.choice([4, 12]), "p2e": None, "p_fail": rng.choice([0, 0.15]),
-            "p_nan": rng.choice([0, 0, 0.2]) if sched == "fifo" else 0, "allow_duplicates": False}
+            "p_nan": rng.choice([0, 0, 0.2]) if sched == "fifo" else 0, "allow_duplicates": rng.random() < 0.25}
 
 
 def gen_gp_exhaust_case(rng, tier):
@@ -302,6 +302,23 @@ def monitor(spec, t):
                 n_init += 1
     else:
         n_init = 0
+    # 3a. the model-based searchers exclude failed configurations whether or not duplicates are allowed
+    #     ("even if allow_duplicates == True, we exclude configs which are pending or failed")
+    if spec["scenario"] == "gp":
+        hp_keys_f = [k for k, d in hp_cs.items() if isinstance(d, Domain)]
+        cfg_of, failed_cfgs = {}, []
+        for e in events:
+            if e["ev"] == "suggest":
+                c = {k: e["config"][k] for k in hp_keys_f}
+                hit = next((tid for tid, fc in failed_cfgs if fc == c), None)
+                if hit is not None:
+                    add("c06:failed-config-suggested-again",
+                        f"trial {e['trial']} is given the configuration {c!r} of trial {hit}, which had failed before "
+                        f"(allow_duplicates={allow_dup})")
+                    break
+                cfg_of[e["trial"]] = c
+            elif e["ev"] == "failed" and e["trial"] in cfg_of:
+                failed_cfgs.append((e["trial"], cfg_of[e["trial"]]))
     # 3. non-repetition
     if not allow_dup and spec["scenario"] in ("searcher", "gp"):
         hp_keys = [k for k, d in hp_cs.items() if isinstance(d, Domain)]
